@@ -358,6 +358,42 @@ impl Runtime {
     }
 }
 
+impl Drop for Runtime {
+    fn drop(&mut self) {
+        // A queued message can hold a handle to a channel - even to the channel it is queued in -
+        // so queues can keep each other alive in a reference cycle. Empty every queue the tasks of
+        // this runtime can reach before their heaps are freed.
+        while let Ok(thread) = self.new_threads.try_recv() {
+            self.run_queue.push_back(thread);
+        }
+        let mut pending: Vec<ChannelQueue> = vec![];
+        for thread in self
+            .run_queue
+            .iter()
+            .chain(self.finished_main_thread.iter())
+        {
+            for header_ptr in &thread.heap_list {
+                let header = unsafe { &**header_ptr };
+                if let ObjectKind::Channel = header.kind {
+                    let chan = unsafe { &*(*header_ptr as *const ChannelObject) };
+                    pending.push(chan.data.clone());
+                }
+            }
+        }
+        let mut emptied: Vec<*const Mutex<VecDeque<ChannelMessage>>> = vec![];
+        while let Some(queue) = pending.pop() {
+            if emptied.contains(&Arc::as_ptr(&queue)) {
+                continue;
+            }
+            emptied.push(Arc::as_ptr(&queue));
+            let messages: Vec<ChannelMessage> = queue.lock().unwrap().drain(..).collect();
+            for message in &messages {
+                message.collect_channels(&mut pending);
+            }
+        }
+    }
+}
+
 #[cfg(feature = "ffi")]
 fn run_ffi_call(thread: &VmGreenThread, ffi_id: u32) {
     unsafe {
@@ -1502,6 +1538,20 @@ impl ChannelMessage {
                 Self::Variant(variant.tag, Box::new(Self::from_value(variant.val, vm)))
             }
             ValueTag::Channel => Self::Channel(unsafe { val.get_channel(vm) }.data.clone()),
+        }
+    }
+
+    /// the channels this message holds handles to
+    fn collect_channels(&self, out: &mut Vec<ChannelQueue>) {
+        match self {
+            Self::Scalar(_) | Self::String(_) => {}
+            Self::Struct(items) | Self::Array(items) => {
+                for item in items {
+                    item.collect_channels(out);
+                }
+            }
+            Self::Variant(_, val) => val.collect_channels(out),
+            Self::Channel(queue) => out.push(queue.clone()),
         }
     }
 
